@@ -369,7 +369,11 @@ jc_member_continued = Fn(J, 'mark_job_member_continued', rewrites=RW + [Rw('unsa
              # ... and only that member: the shell goes on knowing which OTHER members are stopped (else the job can never become Stopped again)
              ('C06+C07.jc_member_continued.the_other_members_keep_their_stopped_mark',
               'forall|k: i32| old(sh).jobs@.contains_key(k) && #[trigger] old(sh).jobs@[k].gid == gid && gid != 0 && final(sh).jobs@.contains_key(k) ==> '
-              'final(sh).jobs@[k].pids_stopped@ =~= old(sh).jobs@[k].pids_stopped@.remove(pid)')])
+              'final(sh).jobs@[k].pids_stopped@ =~= old(sh).jobs@[k].pids_stopped@.remove(pid)'),
+             # a job resumed from outside runs without the terminal: it is a background job from then on, so that its end is reported (C07: "reported once")
+             ('C07.jc_member_continued.a_job_whose_members_all_run_again_is_a_background_job',
+              'forall|k: i32| old(sh).jobs@.contains_key(k) && #[trigger] old(sh).jobs@[k].gid == gid && gid != 0 && final(sh).jobs@.contains_key(k) '
+              '&& final(sh).jobs@[k].pids_stopped@.len() == 0 ==> final(sh).jobs@[k].is_bg')])
 jc_running = Fn(J, 'mark_job_as_running', rewrites=RW,
     requires=[('C06.pre.wf', 'wf(old(sh).jobs@)')],
     ensures=[('C06+C07.jc_running.wf', 'wf(final(sh).jobs@)'), ('C06+C07.jc_running.dom', 'final(sh).jobs@.dom() == old(sh).jobs@.dom()'),
